@@ -1628,6 +1628,81 @@ pub fn gen_cases(topic: &str, seed: u64, n: usize, path: &str) -> Result<(), Str
         w.flush().map_err(|e| e.to_string())?;
         return Ok(());
     }
+    if topic == "typ" {
+        // the STATIC semantics of identifier bodies (spec/TauType.tla): every key modifier against
+        // every kind of value, alone and in lists, nested one level - well typed or not; the
+        // specification says which load
+        let mut g = G::new(seed ^ 0x7199);
+        let mut w = BufWriter::new(File::create(path).map_err(|e| e.to_string())?);
+        fn scalar(g: &mut G) -> J {
+            match g.r.below(9) {
+                0 => json!({"t":"bool","b":g.r.chance(1, 2)}),
+                1 => json!({"t":"null"}),
+                2 => json!({"t":"num","n":int_node(&g.int_text())}),
+                3 => json!({"t":"num","n":flt_node(*g.r.pick(&["1.5", "0.25", "-2.5"]))}),
+                4 => json!({"t":"num","n":int_node(*g.r.pick(&["9223372036854775808", "18446744073709551615"]))}),
+                5 => json!({"t":"cmp","op":*g.r.pick(&["eq", "gt", "ge", "lt", "le"]),"n":int_node(&format!("{}", g.r.below(5)))}),
+                6 => json!({"t":"cmp","op":*g.r.pick(&["gt", "le"]),"n":flt_node("1.5")}),
+                _ => g.pattern(true),
+            }
+        }
+        fn entry(g: &mut G, field: &str, depth: usize) -> J {
+            let v = match g.r.below(10) {
+                0..=4 => scalar(g),
+                5..=7 => {
+                    let n = g.r.below(4);
+                    let mut vs: Vec<J> = vec![];
+                    let first = scalar(g);
+                    for i in 0..n {
+                        // mostly one kind per list, sometimes mixed, sometimes a mapping / null / list inside
+                        let x = match g.r.below(24) {
+                            0..=17 if i > 0 => { let mut y = scalar(g); for _ in 0..6 { if y["t"] == first["t"] { break; } y = scalar(g); } y }
+                            18 | 19 if depth > 0 => json!({"t":"map","es":[entry(g, "x", depth - 1)]}),
+                            20 => json!({"t":"list","vs":[scalar(g)]}),
+                            _ => if i == 0 { first.clone() } else { scalar(g) },
+                        };
+                        vs.push(x);
+                    }
+                    json!({"t":"list","vs":vs})
+                }
+                _ if depth > 0 => {
+                    let n = g.r.below(3);
+                    let fields = ["x", "y"];
+                    json!({"t":"map","es":(0..n.min(2)).map(|i| entry(g, fields[i], depth - 1)).collect::<Vec<_>>()})
+                }
+                _ => scalar(g),
+            };
+            // the modifier: usually one that the value admits, so that about half of the rules load
+            let m = if v["t"] == "list" { *g.r.pick(&["none", "none", "not", "int", "flt", "str", "all", "of", "all", "of"]) }
+                    else if g.r.chance(1, 12) { *g.r.pick(&["all", "of"]) }
+                    else { *g.r.pick(&["none", "none", "none", "none", "not", "int", "flt", "str"]) };
+            json!({"m":m,"c":g.r.below(3),"f":cps(field),"v":v})
+        }
+        for _ in 0..n {
+            let nid = 1 + g.r.below(2);
+            let mut ids = vec![];
+            for i in 0..nid {
+                let ne = 1 + g.r.below(2);
+                let fields = ["f", "g"];
+                let map = json!({"t":"map","es":(0..ne).map(|k| entry(&mut g, fields[k], 1)).collect::<Vec<_>>()});
+                let body = match g.r.below(24) {
+                    0 | 1 | 2 => json!({"t":"seq","ms":[map, {"t":"map","es":[entry(&mut g, "h", 0)]}]}),
+                    3 => json!({"t":"map","es":[]}),
+                    4 => json!({"t":"seq","ms":[]}),
+                    _ => map,
+                };
+                ids.push(json!([cps(IDENTS[i]), body]));
+            }
+            let cond = if nid == 1 { json!({"t":"id","n":cps("A")}) } else { json!({"t":*g.r.pick(&["and", "or"]),"l":{"t":"id","n":cps("A")},"r":{"t":"id","n":cps("B")}}) };
+            let src = json!({"cond":cond,"ids":ids});
+            let docs: Vec<J> = (0..3).map(|_| g.doc_for(&src)).collect();
+            let c = json!({"topic":"typ","oracle":false,"wt":false,"typed":true,"src":src,"docs":docs,
+                           "plan":{"tri":false,"sws":[[], [true,true,true,true]]}});
+            writeln!(w, "{}", c).map_err(|e| e.to_string())?;
+        }
+        w.flush().map_err(|e| e.to_string())?;
+        return Ok(());
+    }
     if topic == "cond" {
         let mut g = G::new(seed ^ 0xC05D);
         let mut w = BufWriter::new(File::create(path).map_err(|e| e.to_string())?);
